@@ -279,18 +279,32 @@ def _history_job(kw):
     from . import c14
 
     proj = model.project()
-    base = dict(process=kw["process"], projectile=kw["projectile"], fns="ZM-VFNS", nfff=4, pto=kw["pto"], tmc=0, ren_sv=True, fact_sv=True)
+    base = dict(process=kw["process"], projectile=kw["projectile"], fns="ZM-VFNS", nfff=4, pto=kw["pto"], tmc=0, ren_sv=kw.get("ren", True), fact_sv=kw.get("fact", True))
+    # Q2 = 10 (nf 4), 30 (nf 5) with thresholds 1, 25, 10^4; 'low-high-low-high' walks up twice, 'high-low-high' comes back to a number of
+    # flavours it has seen before (whatever was remembered for nf = 5 must still be right after nf = 4 has been served)
+    seq = [(kw["first"], [1, 4]), (kw["second"], [1, 4])] if kw.get("seq", "lhlh") == "lhlh" else [(kw["first"], [4]), (kw["second"], [1, 4])]
+    if kw.get("seq") in ("straddle", "straddle-reversed"):
+        # two points of ONE observable at the same x, one exactly on the bottom matching scale and one 10^-12 below it: they are different
+        # requests with different numbers of flavours, however close (anything that identifies them - a rounded cache key - serves one of
+        # them with the other's operator)
+        pts = [(Fraction(1, 2), 25 - Fraction(1, 10**12)), (Fraction(1, 2), Fraction(25))]
+        seq = [(kw["first"], pts if kw["seq"] == "straddle" else pts[::-1])]
+    requested = {name: [c14.POINTS[i][1] if isinstance(i, int) else i[1] for i in idxs] for name, idxs in seq}
     try:
-        runner, outs = c14.fold_history(proj, base, [(kw["first"], [1, 4]), (kw["second"], [1, 4])])  # Q2 = 10 (nf 4), 30 (nf 5) with thresholds 1, 25, 10^4
+        runner, outs = c14.fold_history(proj, base, seq)
     except (A.Undecided, S.Raised) as e:
         return ("fold", "undecided" if isinstance(e, A.Undecided) else "raised", str(e)[:160])
     bad = []
     n = 0
-    for name in (kw["first"], kw["second"]):
-        for pt in outs[0].store[name]:
+    for name in requested:
+        for want_q2, pt in zip(requested[name], outs[0].store[name]):
             if not (isinstance(pt, S.ObjVal) and isinstance(pt.attrs.get("orders"), dict)):
                 continue
             q2 = S.num_norm(pt.attrs["Q2"])
+            if q2 != want_q2:
+                n += 1
+                bad.append(f"{name}: the result in the slot of the point requested at Q2 = {want_q2} is labelled Q2 = {q2}")
+                continue
             expected = 3 + sum(1 for t in (1, 25, 10**4) if t <= q2)
             seen = set()
             for key, (v, e) in pt.attrs["orders"].items():
@@ -310,21 +324,29 @@ def _history_job(kw):
     return ("ok", bad[:3], n)
 
 
-def check_history(rep, proj, tier):
-    jobs = [dict(first=a, second=b, process=proc, projectile=pr, pto=pto) for (a, b), (proc, pr), pto in itertools.product(
-        [("F2_light", "F2_total"), ("F2_total", "FL_total"), ("F3_total", "F2_light")], [("NC", "electron"), ("CC", "neutrino")], [1, 2])]
+def check_history(rep, proj, tier, rule="C06.history"):
+    # either variation alone as well: what one variation's code path refreshes, the other's may rely on
+    jobs = [dict(first=a, second=b, process=proc, projectile=pr, pto=pto, ren=ren, fact=fact, seq=seq)
+            for (a, b), (proc, pr), (pto, ren, fact), seq in itertools.product(
+                [("F2_light", "F2_total"), ("F2_total", "FL_total"), ("F3_total", "F2_light")], [("NC", "electron"), ("CC", "neutrino")],
+                [(1, True, True), (2, True, True), (2, True, False), (2, False, True)] + ([(1, False, True), (3, True, False)] if tier == "thorough" else []),
+                ["lhlh", "hlh"])]
+    jobs += [dict(first=a, second=a, process="NC", projectile="electron", pto=1, ren=True, fact=True, seq=sq)
+             for a, sq in itertools.product(["F2_total", "F2_light", "FL_total"], ["straddle", "straddle-reversed"])]
     outs = sweep.run_cells(_history_job, jobs)
     n = 0
     for kw, o in zip(jobs, outs):
-        label = f"{kw['first']} then {kw['second']}|{kw['process']}|ZM-VFNS|PTO={kw['pto']}|Q2 = 10, 30 each"
+        label = (f"{kw['first']} then {kw['second']}|{kw['process']}|ZM-VFNS|PTO={kw['pto']}|ren={kw['ren']}|fact={kw['fact']}|"
+                 + {"lhlh": "Q2 = 10, 30 each", "hlh": "Q2 = 30, then 10, 30", "straddle": "Q2 = 25 - 1e-12, 25 (bottom scale 25) at one x",
+                    "straddle-reversed": "Q2 = 25, 25 - 1e-12 (bottom scale 25) at one x"}[kw["seq"]])
         if o[0] == "fold":
-            rep.undecided("C06.history", "", label, f"not foldable ({o[1]}): {o[2]}")
+            rep.undecided(rule, "", label, f"not foldable ({o[1]}): {o[2]}")
             continue
         _, bad, k = o
         n += k
-        rep.check(not bad, "C06.history", "src/yadism/esf/scale_variations.py", label, f"{k} points: splitting-function operators and beta coefficients at each point's own nf",
+        rep.check(not bad, rule, "src/yadism/esf/scale_variations.py", label, f"{k} points: splitting-function operators and beta coefficients at each point's own nf",
                   "; ".join(bad), key=label)
-    rep.floor("points inspected for the nf of their scale-variation terms", n, 30)
+    rep.floor("points inspected for the nf of their scale-variation terms", n, 120)
 
 
 def _boundary_job(kw):
